@@ -108,7 +108,7 @@ func files(run *obs.Run) []fileSpec {
 	fs = append(fs,
 		fileSpec{ID: "virtual-plain-2level", Size: 8192*CS + 1, Virtual: true},
 		fileSpec{ID: "virtual-plain-3level", Size: 8192*8192*CS + 8192*CS + 7, Virtual: true},
-		fileSpec{ID: "virtual-plain-2^60", Size: 1 << 60, Virtual: true},
+		fileSpec{ID: "virtual-plain-2^56", Size: 1 << 56, Virtual: true},
 		fileSpec{ID: "virtual-enc-2level", Size: 4096*CS + CS + 1, Virtual: true, Encrypt: true},
 	)
 	if run.Thorough() {
@@ -298,7 +298,7 @@ func gridOffsets(size int64, rng *rand.Rand, extraRandom int) []int64 {
 func TestReadAtGrid(t *testing.T) {
 	run := obs.Start(t, "C07")
 	defer run.Done()
-	run.Rule("stored files (real uploads of 0, 1, CS-1, CS, CS+1, 3CS+5, 20CS+1 bytes plain, three encrypted; virtual 2-, 3-level and 2^60-byte files): ReadAt over the grid buffer length {0,1,100,CS,CS+1,2CS} x spare capacity {0,1,4096,CS} x offsets {0,1, chunk boundaries +-1, end-CS.., end-101..end-99, end-1, end, end+1, end+CS, random} (smaller grid for encrypted and virtual files). distinct = (file kind, length class, spare capacity, offset class)",
+	run.Rule("stored files (real uploads of 0, 1, CS-1, CS, CS+1, 3CS+5, 20CS+1 bytes plain, three encrypted; virtual 2-, 3-level and 2^56-byte files): ReadAt over the grid buffer length {0,1,100,CS,CS+1,2CS} x spare capacity {0,1,4096,CS} x offsets {0,1, chunk boundaries +-1, end-CS.., end-101..end-99, end-1, end, end+1, end+CS, random} (smaller grid for encrypted and virtual files). distinct = (file kind, length class, spare capacity, offset class)",
 		"offsets are non-negative (the statement gives no meaning to a negative offset)",
 		"spare capacity is pre-filled with the complement of the bytes that follow in the file, so any write there is seen")
 	for _, fs := range files(run) {
